@@ -321,6 +321,15 @@ func cmdCheck(args []string) int {
 		rep := p.makeReplay(o, *prop, *repo, *outDir)
 		b, _ := json.MarshalIndent(rep, "", " ")
 		os.WriteFile(path, b, 0o644)
+		if o.Weak && !rep.Reproduced {
+			// the function calls something that has no contract (abstracted by havoc): a failed proof without a
+			// replayed counterexample is undecided, not a violation
+			fmt.Printf("UNDECIDED property=%s obligation %s failed under the havoc abstraction of a callee without contract (%s); no counterexample replayed\n", *prop, o.Name, path)
+			if exit == 0 {
+				exit = 2
+			}
+			continue
+		}
 		suffix := ""
 		if !rep.Reproduced {
 			suffix = " no-failing-input-found"
